@@ -271,6 +271,45 @@ func runCase(run *vf.Run, raw json.RawMessage, dir string) *vf.Result {
 		case r < 14:
 			op = "ckpt"
 			_ = e.LS.Checkpoint(ctx, hist.CheckpointModes[rng.Intn(4)])
+		case r < 15 && s.Store:
+			// process restart: a fresh Store/DB object finds the populated levels on the
+			// replica; the first sync sets the replica position, later compactions must
+			// continue where each level ended
+			op = "restart-daemon"
+			upload()
+			cctx, cancel := context.WithTimeout(ctx, 30*time.Second)
+			cerr := dmn.Close(cctx)
+			cancel()
+			if cerr != nil {
+				e.Logf("daemon close err=%v", cerr)
+			}
+			dmn, err = e.StartDaemon(levels)
+			if err != nil {
+				return herr(fmt.Errorf("restart daemon: %w", err))
+			}
+			dmn.Store.SetL0Retention(24 * time.Hour)
+			res.Count("daemon_restarts", 1)
+			if _, err := e.AppWriteKind("ins-small"); err != nil {
+				return herr(err)
+			}
+			upload()
+		case r < 15 && !s.Store && rng.Intn(2) == 0:
+			op = "restart"
+			upload()
+			cctx, cancel := context.WithTimeout(ctx, 30*time.Second)
+			cerr := e.LS.Close(cctx)
+			cancel()
+			if cerr != nil {
+				e.Logf("close err=%v", cerr)
+			}
+			if err := e.StartLS(); err != nil {
+				return herr(fmt.Errorf("reopen: %w", err))
+			}
+			res.Count("plain_restarts", 1)
+			if _, err := e.AppWriteKind("ins-small"); err != nil {
+				return herr(err)
+			}
+			upload()
 		case r < 15 && !s.Store:
 			op = "benign-snapshot-in-chain"
 			// application TRUNCATE checkpoint while litestream is closed; nothing unreplicated is lost
